@@ -977,6 +977,13 @@ def oracle_embed(args, out):
         return f'{fmt} image of mode {mode}: /ColorSpace {color_space}, expected {want_space}'
     lossy_requested = optimize or quality
     if jpeg_source and not transparency:
+        if normal == 'CMYK' and (decode == 'true') != bool(app14):
+            # an Adobe CMYK JPEG (APP14 marker) stores inverted samples: the XObject needs /Decode [1 0 1 0 1 0 1 0]
+            # to show the source colours, whatever image-orientation did to the image; without the marker it must not
+            return (f'CMYK JPEG {"with" if app14 else "without"} an Adobe APP14 marker'
+                    f'{" (transposed by image-orientation)" if rotated else ""} embedded '
+                    f'{"with" if decode == "true" else "without"} the inverting /Decode array: the painted colours '
+                    'are the negative of the source')
         if filter_ != '/DCTDecode':
             return f'JPEG image embedded with {filter_}'
         if not rotated and not lossy_requested and reencoded == 'true':
